@@ -58,8 +58,10 @@ def eval : Nat → List (Sym × Val) → Expr → Option Val
       | .lam ps body => eval n ((f, .clo ps body env (some f)) :: env) t
       | _ => none
 
-/-- name 0 is `dsp`; all other identifiers are `n<k>` -/
-def nm (n : Name) : String := if n = 0 then "dsp" else s!"n{n}"
+/-- name 0 is `dsp`; concrete spelling of an identifier. Module names 1, 2, 3 are spelled so that one is a proper string prefix of the
+next (`n1`, `n10`, `n100`): a comparison of mangled paths as strings instead of segment lists is then visible. -/
+def nm (n : Name) : String :=
+  if n = 0 then "dsp" else if n = 2 then "n10" else if n = 3 then "n100" else s!"n{n}"
 
 def joinWith (sep : String) (xs : List String) : String := sep.intercalate xs
 
